@@ -362,6 +362,23 @@ fn run(m: &Model, seed: u64) -> Result<BTreeSet<Vec<i64>>, String> {
 fn run_inner(m: &Model, seed: u64) -> Result<BTreeSet<Vec<i64>>, String> {
     let mut o = SolverOptions::default();
     o.random_generator = SmallRng::seed_from_u64(seed);
+    if std::env::var("CFG").is_ok() {
+        let mut r = SmallRng::seed_from_u64(seed ^ 0x5555);
+        if r.gen_range(0..4) == 0 { o.conflict_resolver = ConflictResolver::NoLearning; }
+        o.learning_clause_minimisation = r.gen_bool(0.5);
+        o.restart_options.min_num_conflicts_before_first_restart = r.gen_range(0..4);
+        o.restart_options.base_interval = r.gen_range(1..6);
+        o.restart_options.no_restarts = r.gen_range(0..5) == 0;
+        match r.gen_range(0..3) { 0 => {}, 1 => { o.restart_options.sequence_generator_type = SequenceGeneratorType::Luby; }, _ => { o.restart_options.sequence_generator_type = SequenceGeneratorType::Geometric; o.restart_options.geometric_coef = Some(1.0 + r.gen_range(1..10) as f64 / 10.0); } }
+        o.restart_options.lbd_coef = [0.5, 1.0, 1.25][r.gen_range(0..3)];
+        o.restart_options.num_assigned_coef = [0.5, 1.4, 10.0][r.gen_range(0..3)];
+        o.restart_options.num_assigned_window = r.gen_range(1..50);
+        o.learning_options.limit_num_high_lbd_nogoods = r.gen_range(0..6);
+        o.learning_options.lbd_threshold = r.gen_range(0..4);
+        o.learning_options.nogood_sorting_strategy = if r.gen_bool(0.5) { LearnedNogoodSortingStrategy::Lbd } else { LearnedNogoodSortingStrategy::Activity };
+        if r.gen_range(0..4) == 0 { o.learning_options.max_activity = 4.0; }
+    }
+    let cfg_desc = format!("res={:?} min={} rmin={} base={} norestart={} seq={:?} limit={} lbdthr={} maxact={}", o.conflict_resolver, o.learning_clause_minimisation, o.restart_options.min_num_conflicts_before_first_restart, o.restart_options.base_interval, o.restart_options.no_restarts, o.restart_options.sequence_generator_type, o.learning_options.limit_num_high_lbd_nogoods, o.learning_options.lbd_threshold, o.learning_options.max_activity);
     let mut s = Solver::with_options(o);
     let xs: Vec<X> = m
         .doms
@@ -401,10 +418,160 @@ fn run_inner(m: &Model, seed: u64) -> Result<BTreeSet<Vec<i64>>, String> {
                 }
             }
             IteratedSolution::Finished | IteratedSolution::Unsatisfiable => break,
-            IteratedSolution::Unknown => return Err("budget exhausted".into()),
+            IteratedSolution::Unknown => { if std::env::var("SHOWCFG").is_ok() { println!("BUDGET {cfg_desc}"); } return Err("budget exhausted".into()) }
         }
     }
     Ok(out)
+}
+
+fn build(m: &Model, seed: u64, upto: usize) -> (Solver, Vec<X>, bool) {
+    let mut o = SolverOptions::default();
+    o.random_generator = SmallRng::seed_from_u64(seed);
+    let mut s = Solver::with_options(o);
+    let xs: Vec<X> = m.doms.iter().enumerate().map(|(i, d)| {
+        if m.is_bool[i] { X::B(s.new_literal()) } else if m.sparse[i] { X::I(s.new_sparse_integer(d.iter().map(|x| *x as i32).collect::<Vec<_>>())) } else { X::I(s.new_bounded_integer(d[0] as i32, *d.last().unwrap() as i32)) }
+    }).collect();
+    let mut infeasible = false;
+    for (i, c) in m.cons.iter().enumerate().take(upto) {
+        if post_one(&mut s, &xs, c, i as u32 + 1).is_err() { infeasible = true; break; }
+    }
+    (s, xs, infeasible)
+}
+fn read(sol: &pumpkin_solver::results::Solution, xs: &[X]) -> Vec<i64> {
+    xs.iter().map(|x| match x { X::I(d) => sol.get_integer_value(*d) as i64, X::B(l) => sol.get_literal_value(*l) as i64 }).collect()
+}
+fn run_bounds(m: &Model, seed: u64) -> Result<String, String> {
+    // C12 probe: bounds after each posting prefix
+    let mut prev: Option<Vec<(i64, i64)>> = None;
+    for upto in 0..=m.cons.len() {
+        let (s, xs, inf) = build(m, seed, upto);
+        let pm = Model { doms: m.doms.clone(), is_bool: m.is_bool.clone(), sparse: m.sparse.clone(), cons: m.cons[..upto].to_vec() };
+        let sols = enumerate(&pm);
+        if inf { return if sols.is_empty() { Ok("ok".into()) } else { Err("post-err-but-sat".into()) }; }
+        let mut cur = vec![];
+        for (i, x) in xs.iter().enumerate() {
+            let (lb, ub) = match x { X::I(d) => (s.lower_bound(d) as i64, s.upper_bound(d) as i64), X::B(l) => { let v = l.get_integer_variable(); (s.lower_bound(&v) as i64, s.upper_bound(&v) as i64) } };
+            cur.push((lb, ub));
+            if lb < m.doms[i][0] || ub > *m.doms[i].last().unwrap() { return Err("outside-declared".into()); }
+            if !sols.is_empty() {
+                let mn = sols.iter().map(|a| a[i]).min().unwrap(); let mx = sols.iter().map(|a| a[i]).max().unwrap();
+                if lb > mn || ub < mx { return Err(format!("bound-excludes-solution")); }
+            }
+            if let X::B(l) = x { if let Some(b) = s.get_literal_value(*l) { if sols.iter().any(|a| (a[i] == 1) != b) { return Err("literal-value-wrong".into()); } } }
+            // a view
+            if let X::I(d) = x { let v = d.scaled(-2).offset(3); let (vl, vu) = (s.lower_bound(&v) as i64, s.upper_bound(&v) as i64); if !sols.is_empty() { let mn = sols.iter().map(|a| -2 * a[i] + 3).min().unwrap(); let mx = sols.iter().map(|a| -2 * a[i] + 3).max().unwrap(); if vl > mn || vu < mx { return Err("view-bound-excludes".into()); } } }
+        }
+        if let Some(p) = &prev { for (a, b) in p.iter().zip(&cur) { if b.0 < a.0 || b.1 > a.1 { return Err("not-monotone".into()); } } }
+        prev = Some(cur);
+    }
+    Ok("ok".into())
+}
+fn gen_pred(rng: &mut SmallRng, m: &Model, xs: &[X]) -> (pumpkin_solver::predicates::Predicate, usize, u8, i64) {
+    use pumpkin_solver::predicate;
+    let i = rng.gen_range(0..m.doms.len());
+    let (lo, hi) = if std::env::var("INDOM").is_ok() { (m.doms[i][0], *m.doms[i].last().unwrap()) } else { (m.doms[i][0] - 1, *m.doms[i].last().unwrap() + 1) };
+    let v = rng.gen_range(lo..=hi);
+    let d = match xs[i] { X::I(d) => d, X::B(l) => l.get_true_predicate().get_domain() };
+    let k = rng.gen_range(0..4u8);
+    let vv = v as i32;
+    let p = match k { 0 => predicate!(d >= vv), 1 => predicate!(d <= vv), 2 => predicate!(d == vv), _ => predicate!(d != vv) };
+    (p, i, k, v)
+}
+fn pred_holds(k: u8, v: i64, x: i64) -> bool { match k { 0 => x >= v, 1 => x <= v, 2 => x == v, _ => x != v } }
+fn run_assume(m: &Model, seed: u64) -> Result<String, String> {
+    use pumpkin_solver::results::SatisfactionResultUnderAssumptions as R2;
+    use pumpkin_solver::results::SatisfactionResult;
+    let (mut s, xs, inf) = build(m, seed, m.cons.len());
+    let sols = enumerate(m);
+    if inf { return if sols.is_empty() { Ok("ok".into()) } else { Err("post-err-but-sat".into()) }; }
+    let mut rng = SmallRng::seed_from_u64(seed ^ 0x777);
+    let mut b = s.default_brancher();
+    for _round in 0..3 {
+        let na = rng.gen_range(1..5);
+        let ass: Vec<_> = (0..na).map(|_| gen_pred(&mut rng, m, &xs)).collect();
+        let preds: Vec<_> = ass.iter().map(|a| a.0).collect();
+        let under: Vec<&Vec<i64>> = sols.iter().filter(|a| ass.iter().all(|(_, i, k, v)| pred_holds(*k, *v, a[*i]))).collect();
+        let mut t = Budget(2_000_000);
+        {
+        let r = s.satisfy_under_assumptions(&mut b, &mut t, &preds);
+        match r {
+            R2::Satisfiable(sol) => { let a = read(&sol, &xs); if !under.contains(&&a) { return Err("assump-sat-wrong".into()); } }
+            R2::Unsatisfiable => { if !sols.is_empty() { return Err("unsat-but-model-sat".into()); } }
+            R2::Unknown => return Err("budget".into()),
+            R2::UnsatisfiableUnderAssumptions(mut u) => {
+                if !under.is_empty() { return Err("unsat-under-assumptions-but-sat".into()); }
+                let core = std::panic::catch_unwind(std::panic::AssertUnwindSafe(|| u.extract_core()));
+                match core {
+                    Err(p) => { let msg = p.downcast_ref::<String>().cloned().or(p.downcast_ref::<&str>().map(|s| s.to_string())).unwrap_or_default(); if !msg.contains("Conflicting assumptions") { return Err(format!("core-panic {}", msg.chars().take(60).collect::<String>())); } }
+                    Ok(core) => {
+                        // each core predicate implied by assumptions (over declared domains), and model+core unsat
+                        let full: Vec<Vec<i64>> = { let pm = Model { doms: m.doms.clone(), is_bool: m.is_bool.clone(), sparse: m.sparse.clone(), cons: vec![] }; enumerate(&pm).into_iter().collect() };
+                        let idx_of = |p: &pumpkin_solver::predicates::Predicate| -> (usize, u8, i64) {
+                            use pumpkin_solver::predicates::Predicate as P;
+                            let (d, k, v) = match *p { P::LowerBound { domain_id, lower_bound } => (domain_id, 0, lower_bound), P::UpperBound { domain_id, upper_bound } => (domain_id, 1, upper_bound), P::Equal { domain_id, equality_constant } => (domain_id, 2, equality_constant), P::NotEqual { domain_id, not_equal_constant } => (domain_id, 3, not_equal_constant) };
+                            let i = xs.iter().position(|x| match x { X::I(dd) => *dd == d, X::B(l) => l.get_true_predicate().get_domain() == d }).unwrap();
+                            (i, k, v as i64)
+                        };
+                        let cps: Vec<_> = core.iter().map(idx_of).collect();
+                        for a in &full {
+                            if ass.iter().all(|(_, i, k, v)| pred_holds(*k, *v, a[*i])) && !cps.iter().all(|(i, k, v)| pred_holds(*k, *v, a[*i])) { return Err("core-not-implied-by-assumptions".into()); }
+                        }
+                        if sols.iter().any(|a| cps.iter().all(|(i, k, v)| pred_holds(*k, *v, a[*i]))) { return Err("core-consistent-with-model".into()); }
+                    }
+                }
+            }
+        }
+        }
+        let mut t = Budget(2_000_000);
+        match s.satisfy(&mut b, &mut t) {
+            SatisfactionResult::Satisfiable(sol) => { if !sols.contains(&read(&sol, &xs)) { return Err("after: non-solution".into()); } }
+            SatisfactionResult::Unsatisfiable => { if !sols.is_empty() { return Err("after: unsat-but-sat".into()); } }
+            SatisfactionResult::Unknown => return Err("after: budget".into()),
+        }
+    }
+    Ok("ok".into())
+}
+struct StopAt { polls: std::rc::Rc<std::cell::Cell<u64>>, at: Option<u64>, fired: bool }
+impl TerminationCondition for StopAt {
+    fn should_stop(&mut self) -> bool {
+        let p = self.polls.get(); self.polls.set(p + 1);
+        if !self.fired && self.at == Some(p) { self.fired = true; return true; }
+        p > 3_000_000
+    }
+}
+fn iterate_with(m: &Model, seed: u64, at: Option<u64>) -> Result<(BTreeSet<Vec<i64>>, u64, u64), String> {
+    let (mut s, xs, inf) = build(m, seed, m.cons.len());
+    if inf { return Ok((BTreeSet::new(), 0, 0)); }
+    let polls = std::rc::Rc::new(std::cell::Cell::new(0));
+    let mut t = StopAt { polls: polls.clone(), at, fired: false };
+    let mut b = s.default_brancher();
+    let mut out = BTreeSet::new();
+    let mut unknowns = 0;
+    let mut it = s.get_solution_iterator(&mut b, &mut t);
+    loop {
+        match it.next_solution() {
+            IteratedSolution::Solution(sol, _, _) => { if !out.insert(read(&sol, &xs)) { return Err("dup".into()); } }
+            IteratedSolution::Finished | IteratedSolution::Unsatisfiable => break,
+            IteratedSolution::Unknown => { unknowns += 1; if unknowns > 1 { return Err("budget".into()); } }
+        }
+    }
+    Ok((out, polls.get(), unknowns))
+}
+fn run_interrupt(m: &Model, seed: u64) -> Result<String, String> {
+    let sols = enumerate(m);
+    let (a, n1, _) = iterate_with(m, seed, None)?;
+    let (_, n2, _) = iterate_with(m, seed, None)?;
+    if n1 != n2 { return Err("poll-count-not-deterministic".into()); }
+    if a != sols { return Err("baseline-mismatch".into()); }
+    let stride = (n1 / 60).max(1);
+    let mut k = 0;
+    while k < n1 {
+        let (b, _, u) = iterate_with(m, seed, Some(k)).map_err(|e| format!("k: {e}"))?;
+        if b != sols { return Err(format!("after-interrupt-mismatch missing={} extra={}", sols.difference(&b).count() > 0, b.difference(&sols).count() > 0)); }
+        if u != 1 { return Err("interrupt-not-reported".into()); }
+        k += stride;
+    }
+    Ok("ok".into())
 }
 
 fn run_opt(m: &Model, seed: u64) -> Result<String, String> {
@@ -466,8 +633,8 @@ fn main() {
         if expect.len() > 1 {
             nontrivial += 1;
         }
-        if std::env::var("MODE").as_deref() == Ok("opt") {
-            let got = std::panic::catch_unwind(|| run_opt(&m, seed));
+        if let Ok(mode) = std::env::var("MODE") {
+            let got = std::panic::catch_unwind(|| match mode.as_str() { "opt" => run_opt(&m, seed), "bounds" => run_bounds(&m, seed), "assume" => run_assume(&m, seed), "interrupt" => run_interrupt(&m, seed), _ => panic!("mode") });
             let sig = match got {
                 Ok(Ok(_)) => continue,
                 Ok(Err(e)) => format!("ERR {e}"),
